@@ -188,13 +188,18 @@ func (l *localFS) Put(ctx context.Context, key string, source io.Reader, exclusi
 					zap.Error(err),
 				)
 			}
-			err = target.Close()
-			if err != nil {
+			if e := target.Close(); e != nil {
 				l.l.Error("write error, retrying",
 					zap.String("key", key),
-					zap.Error(err),
+					zap.Error(e),
 				)
-
+				if err == nil {
+					err = e
+				}
+			}
+			if err != nil {
+				// a failed write is reported, and leaves no partial record behind
+				_ = l.fs.Remove(key)
 			}
 
 			return err
@@ -218,12 +223,18 @@ func (l *localFS) Put(ctx context.Context, key string, source io.Reader, exclusi
 				)
 			}
 
-			err = target.Close()
-			if err != nil {
+			if e := target.Close(); e != nil {
 				l.l.Error("write error, retrying",
 					zap.String("key", key),
-					zap.Error(err),
+					zap.Error(e),
 				)
+				if err == nil {
+					err = e
+				}
+			}
+			if err != nil {
+				// a failed write is reported, and leaves no partial record behind
+				_ = l.fs.Remove(key)
 			}
 
 			return err
